@@ -399,8 +399,10 @@ class Check:
         p = os.path.join(self.scratch, f"{tag}.v")
         with open(p, "w", encoding="utf-8") as f:
             f.write(text)
-        return sh(["timeout", str(timeout), "coqc", "-Q", os.path.join(COQ, "theories"), "IRV",
-                   "-w", "-all", p], cwd=self.scratch, timeout=timeout + 30)
+        # memory cap (address space, KiB): a runaway vm_compute must fail, not take the machine down
+        cap = int(os.environ.get("VERIF_COQ_MEM_KB", "10000000"))
+        return sh(["bash", "-c", f'ulimit -v {cap}; exec timeout {timeout} coqc -Q "$0" IRV -w -all "$1"',
+                   os.path.join(COQ, "theories"), p], cwd=self.scratch, timeout=timeout + 30)
 
     def coq_eval_many(self, texts: list[tuple[str, str]], timeout: int = 600) -> list[tuple[int, str]]:
         """Compile several case files in parallel."""
